@@ -837,6 +837,48 @@ func (t *tester) misc(which int) {
 			t.exec(cl.JSON("POST", "/v2/collections/colv2/points", "alice", "basic", map[string]any{"points": []any{map[string]any{"_id": p9, "vec": vec}}}), expect, fmt.Sprintf("stored vector of length %d on a 2-d index", n))
 			t.exec(cl.JSON("POST", "/v2/collections", "alice", "basic", map[string]any{"id": fmt.Sprintf("dim%d", n), "indexSchema": map[string]any{"v": map[string]any{"type": "vectorFlat", "vectorFlat": map[string]any{"vectorSize": n, "distanceMetric": "euclidean"}}}}), map[bool]string{true: "invalid", false: "any"}[n > 4096], fmt.Sprintf("index of dimension %d", n))
 		}
+		// an index entry that carries the parameter block of its own type plus a
+		// superfluous block of another type with a different vector size: if the
+		// collection is accepted, the dimension in force is the one of its type
+		vam := func(n int) map[string]any {
+			return map[string]any{"vectorSize": n, "distanceMetric": "euclidean", "searchSize": 75, "degreeBound": 64, "alpha": 1.2}
+		}
+		flat := func(n int) map[string]any { return map[string]any{"vectorSize": n, "distanceMetric": "euclidean"} }
+		vecOf := func(n int) []any {
+			v := make([]any, n)
+			for i := range v {
+				v[i] = 0.5
+			}
+			return v
+		}
+		for k, entry := range []map[string]any{
+			{"type": "vectorVamana", "vectorVamana": vam(4), "vectorFlat": flat(2)},
+			{"type": "vectorFlat", "vectorFlat": flat(4), "vectorVamana": vam(2)},
+			{"type": "vectorFlat", "vectorFlat": flat(4), "string": map[string]any{"caseSensitive": true}, "vectorVamana": vam(3)},
+		} {
+			col := fmt.Sprintf("dual%d", k)
+			// bob has no other v2 collection: the plan's collection quota does not interfere
+			r := t.exec(cl.JSON("POST", "/v2/collections", "bob", "basic", map[string]any{"id": col, "indexSchema": map[string]any{"v": entry}}), "any", "index entry with a superfluous parameter block")
+			if r.Status != 200 {
+				continue
+			}
+			what := fmt.Sprintf("on an index of type %v and dimension 4 (a superfluous block says otherwise)", entry["type"])
+			for _, n := range []int{2, 3} {
+				t.exec(cl.JSON("POST", "/v2/collections/"+col+"/points", "bob", "basic", map[string]any{"points": []any{map[string]any{"_id": p9, "v": vecOf(n)}}}), "invalid", fmt.Sprintf("stored vector of length %d %s", n, what))
+			}
+			t.exec(cl.JSON("POST", "/v2/collections/"+col+"/points", "bob", "basic", map[string]any{"points": []any{map[string]any{"_id": p1, "v": vecOf(4)}}}), "valid", "stored vector of length 4 "+what)
+			for _, n := range []int{2, 3} {
+				t.exec(cl.JSON("PUT", "/v2/collections/"+col+"/points", "bob", "basic", map[string]any{"points": []any{map[string]any{"_id": p1, "v": vecOf(n)}}}), "invalid", fmt.Sprintf("updated vector of length %d %s", n, what))
+			}
+			qk := "vectorFlat"
+			q := map[string]any{"vector": vecOf(2), "operator": "near", "limit": 5}
+			if entry["type"] == "vectorVamana" {
+				qk = "vectorVamana"
+				q["searchSize"] = 75
+			}
+			t.exec(cl.JSON("POST", "/v2/collections/"+col+"/points/search", "bob", "basic", map[string]any{"query": map[string]any{"property": "v", qk: q}, "limit": 5}), "invalid", "query vector of length 2 "+what)
+			t.exec(cl.JSON("DELETE", "/v2/collections/"+col, "bob", "basic", nil), "any", "delete "+col)
+		}
 	default: // deep nesting, one request per job (a stack overflow is fatal for the process)
 		depth := []int{10, 1000, 100000, 1000000}[(which-3)%4]
 		enc := []string{"json", "msgpack"}[(which-3)/4%2]
@@ -867,7 +909,7 @@ func (t *tester) misc(which int) {
 
 func master(cfg *harness.Config, rep *harness.Report) {
 	rep.Level = "exploration"
-	rep.Rule = "(a) every byte string of length <= L over a structural alphabet (JSON: { } [ ] \" : , 1 - e . a \\\\ space; MessagePack: fixmap/fixarray/str/nil/bool/float/int/array16/map16 lead bytes) as the body of each of the 10 body-taking routes of both API versions; (b) for 11 valid base requests (v2 create / insert / update / delete / hybrid search with nested filters, select, sort, paging / binary flat search; v1 create / insert / update / delete / search) every node of the request tree deleted or replaced by each of 32 values (null, booleans, 0, ±1, 1e400, 2^63, empty / reserved / dotted / 3000-byte strings, empty and nested arrays and objects, boundary numbers 24/76/101/4096/4097/10001, malformed and valid uuids, ...), in JSON and MessagePack, plus duplicate keys; (c) header / content-type variants, body-less and unknown routes, every v1 route on a v2 collection and vice versa, quota and size limits, vector lengths 1/4096/4097, nesting depth 10..10^6. Oracle: never a 5xx or a dead worker; requests that certainly violate the schema must get 4xx; after any 4xx the digest of all collections and points is unchanged; unmodified base requests succeed. distinct_nontrivial = distinct (route, status class, expectation) tuples"
+	rep.Rule = "(a) every byte string of length <= L over a structural alphabet (JSON: { } [ ] \" : , 1 - e . a \\\\ space; MessagePack: fixmap/fixarray/str/nil/bool/float/int/array16/map16 lead bytes) as the body of each of the 10 body-taking routes of both API versions; (b) for 11 valid base requests (v2 create / insert / update / delete / hybrid search with nested filters, select, sort, paging / binary flat search; v1 create / insert / update / delete / search) every node of the request tree deleted or replaced by each of 32 values (null, booleans, 0, ±1, 1e400, 2^63, empty / reserved / dotted / 3000-byte strings, empty and nested arrays and objects, boundary numbers 24/76/101/4096/4097/10001, malformed and valid uuids, ...), in JSON and MessagePack, plus duplicate keys; (c) header / content-type variants, body-less and unknown routes, every v1 route on a v2 collection and vice versa, quota and size limits, vector lengths 1/4096/4097, index entries with a superfluous parameter block of another type (the dimension in force is the one of the entry's type), nesting depth 10..10^6. Oracle: never a 5xx or a dead worker; requests that certainly violate the schema must get 4xx; after any 4xx the digest of all collections and points is unchanged; unmodified base requests succeed. distinct_nontrivial = distinct (route, status class, expectation) tuples"
 	rep.Assumptions = []string{"the grammar is bounded: L<=4 (quick) / 5 (thorough) for JSON and for MessagePack; single mutations only", "one node, two users", "body sizes stay below 12 MB (no request-size limit exists in the server: memory exhaustion by huge bodies is not explored)"}
 	p := pool.New(pool.Options{CPUsPerWorker: 2, JobTimeout: 300 * time.Second, MemLimitKB: 8 << 20})
 	var jobs []job
